@@ -754,8 +754,8 @@ func busDomain(lines []string) []string {
 					cs.ptimeout = true
 				case w == "obs":
 					opts = append(opts, eb.WithObservability(recObs{cs}))
-				case w == "otel":
-					o, err := newOtelProbe()
+				case w == "otel" || w == "otelns":
+					o, err := newOtelProbe(w == "otel")
 					if err != nil {
 						cs.out = append(cs.out, "!otel "+err.Error())
 					} else {
